@@ -58,6 +58,12 @@ def two_pattern_chains(dom, tier):
 
 
 def plan(tier, seed):
+    from mc import imporder
+
+    return _plan(tier, seed) + [imporder.phase(tier, 'core')]
+
+
+def _plan(tier, seed):
     phases = []
     for dom, L in LENGTHS[tier].items():
         chains = domains.typed_chains(dom, L, min_len=2)
